@@ -26,7 +26,7 @@ the recursion limit (it is modelled where it matters, on the value level: `deBod
 The recursive descent uses a fuel argument (structural recursion); `parseText` supplies enough
 fuel for any input (`2 * length + 2`).
 -/
-import RioModel.Model.JsonAction
+import RioModel.Model.Json
 
 namespace Rio.Json
 
@@ -289,20 +289,6 @@ end
 def parseText (cs : List Char) : Option Json :=
   match parseValue (2 * cs.length + 2) cs with
   | some (j, r) => if (skipWs r).isEmpty then some j else none
-  | none => none
-
-/-- `serde_json::from_str::<Action>` on a document. -/
-def deActionText (cs : List Char) : Option Action := (parseText cs).bind deAction
-
-/-- `serde_json::from_str::<Request>`. -/
-def deRequestText (P : Codec) (cs : List Char) : Option Request := (parseText cs).bind (deRequest P)
-
-/-- `serde_json::from_str` into a type that keeps everything (`deserialize_any`: serde_json's
-own `Value`, or the harness's ordered tree): every token is *read*, so junk and nesting beyond
-the recursion limit are errors. -/
-def parseAny (cs : List Char) : Option Json :=
-  match parseText cs with
-  | some j => if hasJunk j || depth j > recursionLimit then none else some j
   | none => none
 
 end Rio.Json
